@@ -146,6 +146,12 @@ def _as_tuple(result) -> tuple:
     return (result.hit_id, result.query_start, result.query_end, result.bitscore, result.evalue)
 
 
+def _same_result(one: dict, two: dict) -> bool:
+    """ the same hits for the same proteins; the mutual order of hits that start at the same residue is not
+        part of 'ordered by position' (the order itself is judged by the clause refine_sorted) """
+    return {k: sorted(v) for k, v in one.items()} == {k: sorted(v) for k, v in two.items()}
+
+
 def _run_refine(raw_hits: list, lengths: dict, neighbour: bool, ordered: bool) -> dict:
     """ runs the real refine_hmmscan_results; with ordered=True equal-start hits reach the
         start-only sort in input order instead of set order """
@@ -220,10 +226,25 @@ def _represented(hit: tuple, output: list) -> bool:
     return any(o[0] == hit[0] and o[1] <= hit[1] and hit[2] <= o[2] and o[3] >= hit[3] for o in output)
 
 
+def _clash(one: tuple, two: tuple, lengths: dict) -> bool:
+    """ 'overlapping' as _remove_overlapping documents it: the later hit starts more than 20% of the longer
+        profile before the earlier one ends (for hits that are not nested this is the number of shared residues) """
+    if one[1] == two[1]:
+        extent = max(one[2], two[2]) - one[1]
+    else:
+        first, second = (one, two) if one[1] < two[1] else (two, one)
+        extent = first[2] - second[1]
+    return 5 * extent > max(lengths[one[0]], lengths[two[0]])
+
+
 def _explanation(hit: tuple, inputs: list, output: list, lengths: dict, mode: str):
     """ why the statement allows `hit` to be absent, or None """
     for out in output:
-        if _ov(out, hit) >= 1 and out[3] >= hit[3]:
+        if out[3] < hit[3]:
+            continue
+        # the kept hit itself, or a fragment that was merged into it, lies over the hit beyond the margin
+        parts = [out] + [x for x in inputs if x[0] == out[0] and out[1] <= x[1] and x[2] <= out[2]]
+        if any(_clash(part, hit, lengths) for part in parts):
             return "displaced"
     if mode == "list":
         same = [x for x in inputs if x[0] == hit[0]]
@@ -235,7 +256,7 @@ def _explanation(hit: tuple, inputs: list, output: list, lengths: dict, mode: st
                     continue
                 hull = (hit[0], first[1], max(first[2], last[2], hit[2]))
                 for out in output:
-                    if _ov(out, hull) >= 1 and out[3] >= hit[3]:
+                    if out[3] >= hit[3] and _clash(out, hull, lengths):
                         return "displaced_as_merged"
     size, full = hit[2] - hit[1], lengths[hit[0]]
     if 2 * size <= full:
@@ -272,11 +293,11 @@ def _drop_facts(hit: tuple, inputs: list, output: list, lengths: dict, mode: str
     extents = [u for u in units if hit in u[4]]
     displacers = []
     for unit in units:
-        if hit in unit[4] or unit[3] < hit[3] or not any(_ov(unit, ext) >= 1 for ext in extents):
+        if hit in unit[4] or unit[3] < hit[3] or not any(_clash(unit, ext, lengths) for ext in extents):
             continue
         own = [u for u in units if any(x in u[4] for x in unit[4])]
         rivals = [v for v in units if v[3] >= unit[3] and not any(x in unit[4] or x == hit for x in v[4])
-                  and any(_ov(v, ext) >= 1 for ext in own)]
+                  and any(_clash(v, ext, lengths) for ext in own)]
         nested = any(a != b and a[0] == b[0] and ((a[1] <= b[1] and b[2] <= a[2]) or (b[1] <= a[1] and a[2] <= b[2]))
                      for a in unit[4] for b in inputs)
         displacers.append({"unit": list(unit[:4]), "kept": _unit_kept(unit, output), "nested_fragments": nested,
@@ -366,7 +387,7 @@ def _refine_failures(spec: dict) -> tuple:
         for name in cds_names:
             solo = [raw for raw in raw_hits if f"cds{raw[5]}" == name]
             ok, alone = _guard("refine_total", failures, _run_refine, solo, lengths, neighbour, False)
-            if ok and alone.get(name, []) != base.get(name, []) and not _has_start_tie(by_cds[name]):
+            if ok and sorted(alone.get(name, [])) != sorted(base.get(name, [])) and not _has_start_tie(by_cds[name]):
                 failures.append(("refine_cds_independent", {"cds": name, "together": base.get(name, []),
                                                             "alone": alone.get(name, [])}))
 
@@ -377,7 +398,7 @@ def _refine_failures(spec: dict) -> tuple:
     for order in _orders(count, tie_groups, full_upto=4):
         permuted = [raw_hits[i] for i in order]
         ok, other = _guard("refine_total", failures, _run_refine, permuted, lengths, neighbour, False)
-        if ok and other != base:
+        if ok and not _same_result(other, base):
             failures.append(("refine_order_public", {"mode": mode, "order": order, "first": base, "permuted": other,
                                                      "equal_start_pairs": _equal_start_pairs(by_cds)}))
             break
@@ -397,12 +418,12 @@ def _refine_failures(spec: dict) -> tuple:
     if ordered_results:
         first_order, first = ordered_results[0]
         for order, other in ordered_results[1:]:
-            if other != first:
+            if not _same_result(other, first):
                 failures.append(("refine_order_ties", {"mode": mode, "orders": [first_order, order], "first": first,
                                                        "other": other,
                                                        "equal_start_pairs": _equal_start_pairs(by_cds)}))
                 break
-        if base != first and not tie_groups_exist(tie_groups):
+        if not _same_result(base, first) and not tie_groups_exist(tie_groups):
             failures.append(("refine_order_public", {"mode": mode, "order": "set versus list", "first": base,
                                                      "permuted": first, "equal_start_pairs": []}))
 
@@ -519,6 +540,13 @@ def _hmmer_rank(key: tuple, cutoffs: dict) -> tuple:
     return (Fraction(cutoffs[identifier]) / Fraction(score), Fraction(1, end - start), start, identifier)
 
 
+def _hmmer_overlapping(one: tuple, two: tuple, limit: int) -> bool:
+    """ at least `limit` shared residues, or one hit inside the other """
+    shared = min(one[2], two[2]) - max(one[1], two[1])
+    nested = (one[1] <= two[1] and two[2] <= one[2]) or (two[1] <= one[1] and one[2] <= two[2])
+    return shared >= limit or (nested and shared >= 1)
+
+
 def _hmmer_failures(spec: dict) -> tuple:
     from antismash.common.hmmer import remove_overlapping
     limit = int(spec["limit"])
@@ -581,8 +609,7 @@ def _hmmer_failures(spec: dict) -> tuple:
         if key in base:
             continue
         rank = _hmmer_rank(key, cutoffs)
-        displacers = [o for o in base if min(o[2], key[2]) - max(o[1], key[1]) >= 1
-                      and _hmmer_rank(o, cutoffs) < rank]
+        displacers = [o for o in base if _hmmer_rank(o, cutoffs) < rank and _hmmer_overlapping(o, key, limit)]
         if not displacers:
             failures.append(("hmmer_unexplained_drop", {"hit": key, "output": base, "limit": limit}))
     tie_groups = [[i for i, raw in enumerate(raw_hits) if raw[1] == start]
@@ -596,8 +623,9 @@ def _hmmer_failures(spec: dict) -> tuple:
             found = duplicates(other, order)
             failures.extend(found)
             seen_duplicate = bool(found)
-        # the order clause is judged without the repeats, which are reported on their own
-        if unique(other) != unique(base):
+        # the same hits must survive; repeats are reported on their own and the order of hits that
+        # start at the same residue is not part of "ordered by position"
+        if sorted(set(other)) != sorted(set(base)):
             failures.append(("hmmer_order", {"order": order, "first": base, "permuted": other}))
             break
     ranks = [_hmmer_rank(k, cutoffs)[0] for k in keys]
@@ -991,13 +1019,6 @@ def _hmmer_short_first_hit_repeated(sub, spec, clause, detail) -> bool:
     if clause == "hmmer_invented_hit":
         return (detail.get("problem") == "duplicate" and detail.get("is_first_hit_after_sorting") is True
                 and detail.get("hit_length", 10 ** 9) < detail.get("limit", 0))
-    if clause == "hmmer_order":
-        limit = int(spec["limit"])
-        first_start = min(int(raw[1]) for raw in spec["hits"])
-        both = [[tuple(k) for k in detail["first"]], [tuple(k) for k in detail["permuted"]]]
-        repeated = [k for out in both for k in out if out.count(k) > 1]
-        return (bool(repeated) and all(k[1] == first_start and k[2] - k[1] < limit for k in repeated)
-                and set(both[0]) == set(both[1]))
     return False
 
 
@@ -1026,7 +1047,7 @@ SCORES = [10.0, 20.0, 30.0]
 
 
 @st.composite
-def _profiles(draw, low: int = 2, high: int = 4) -> dict:
+def _profiles(draw, low: int = 2, high: int = 5) -> dict:
     count = draw(st.integers(low, high))
     start = draw(st.integers(0, len(PROFILE_POOL) - 1))
     picked = [PROFILE_POOL[(start + i) % len(PROFILE_POOL)] for i in range(count)]
@@ -1047,7 +1068,7 @@ def _size_choices(full: int) -> list:
 def _one_hit(draw, lengths: dict, earlier: list) -> list:
     """ [profile, start, end, score, evalue exponent] built relative to earlier hits """
     names = sorted(lengths)
-    kind = draw(st.sampled_from(["free", "rel", "rel", "rel", "frag", "frag", "copy"])) if earlier else "free"
+    kind = draw(st.sampled_from(["free", "rel", "rel", "rel", "rel", "frag", "copy"])) if earlier else "free"
     if kind == "copy":
         ref = draw(st.sampled_from(earlier))
         hit = list(ref[:5])
@@ -1067,7 +1088,9 @@ def _one_hit(draw, lengths: dict, earlier: list) -> list:
     else:
         profile = draw(st.sampled_from(names))
     full = lengths[profile]
-    size = draw(st.one_of(st.sampled_from(_size_choices(full)), st.integers(1, max(2, (3 * full) // 2))))
+    whole = sorted({full // 2 + 1, (6 * full) // 10, full - 1, full, full + 1})
+    size = draw(st.one_of(st.sampled_from(whole), st.sampled_from(whole), st.sampled_from(_size_choices(full)),
+                          st.integers(1, max(2, (3 * full) // 2))))
     if kind == "free":
         start = draw(st.integers(0, 300))
     elif kind == "rel":
@@ -1152,8 +1175,8 @@ def hmmer_specs(draw) -> dict:
     hits: list = []
     for _ in range(count):
         identifier = draw(st.sampled_from(names))
-        size = draw(st.one_of(st.sampled_from([1, limit - 1, limit, limit + 1, 2 * limit, 50, 100]),
-                              st.integers(1, 150)))
+        size = draw(st.one_of(st.sampled_from([limit - 1, limit, limit + 1, 2 * limit, 50, 100]),
+                              st.integers(limit, 150), st.integers(1, 150)))
         size = max(1, size)
         if hits and draw(st.integers(0, 3)) > 0:
             ref = draw(st.sampled_from(hits))
@@ -1173,7 +1196,7 @@ def hmmer_specs(draw) -> dict:
 def enum_hmmer(max_hits: int):
     """ every set of <= max_hits hits over a grid around overlap_limit 3 """
     def cases():
-        grid = [0, 2, 3, 4, 6, 9]
+        grid = [0, 3, 5, 6, 8, 12]
         pool = []
         for identifier in ("PF001", "PF002"):
             for start, end in itertools.combinations(grid, 2):
